@@ -110,6 +110,21 @@ func (m *Migrator) Migrate(
 	pivot := min(l1Head.BlockNumber, chainHeight)
 
 	if !m.floorPinned {
+		// No persisted state, yet blocks are already pruned: an earlier attempt of this migration
+		// committed its cutoff and then died (crash, I/O error) before the runner could persist
+		// the intermediate state. The database itself records that cutoff; keep it, whatever the
+		// configuration says now.
+		oldest, err := pruner.OldestRetainedBlock(database)
+		if err != nil {
+			return nil, fmt.Errorf("finding oldest retained block: %w", err)
+		}
+		if oldest > 0 {
+			m.oldestBlockKept = oldest
+			m.floorPinned = true
+		}
+	}
+
+	if !m.floorPinned {
 		if pivot < m.retainedBlocks {
 			// Chain shorter than the retention window — nothing to prune yet.
 			return nil, nil
